@@ -24,6 +24,9 @@ import (
 func cases(tier string, seed int64) []eng.Case {
 	out := bgvCases(tier, seed)
 	out = append(out, ckksCases(tier, seed)...)
+	// coverage extension (own generators: the case lists above do not depend on it)
+	out = append(out, bgvxCases(tier, seed)...)
+	out = append(out, ckksxCases(tier, seed)...)
 	return out
 }
 
@@ -34,13 +37,22 @@ func init() {
 			"Inside a case the monitor enumerates level x {slots, coefficients} x IsNTT x value type x boundary pattern (0, 1, t-1, t, 2^63, 2^64-1, MinInt64, +-(t-1)/2, +-(t+1)/2, multiples of t; CKKS: magnitudes from 1/scale to 0.35*Q/scale, one-hot, constant, real-only, tiny negative) x vector length (0/1, 1, slots-1, slots, random) x scale (1, t-1, random; CKKS: default, other power of two, non power of two, prime) x output type/length, " +
 			"plus products of two encodings, decoding under worst admissible noise (BGV), Embed into ring.Poly / ringqp.Poly with every (IsNTT, IsMontgomery), FFT/IFFT against a naive DFT, DecodePublic. " +
 			"distinct key = (scheme, ring type or gap, logN, level class, domain/logSlots, IsNTT, target API, input type, output type, pattern, length class, scale class, precision path). " +
-			"non-trivial = NOT (uniformly random full-length vector, top level, default scale, IsNTT=true, Encode into a plaintext, gap 1, float64 path).",
+			"non-trivial = NOT (uniformly random full-length vector, top level, default scale, IsNTT=true, Encode into a plaintext, gap 1, float64 path). " +
+			"Extension families (own generators, ids bgvx/..., ckksx/..., bgv/.../big): plaintext moduli of 59/60 bits under a 61-bit first modulus and 61-bit moduli next to 30-bit ones; the exported building blocks called directly with exact models " +
+			"(bgv EncodeRingT, DecodeRingT, RingT2Q, RingQ2T with both scaleDown values on arbitrary centred polynomials, EmbedScale; ckks GetRootsComplex128/GetRootsBigComplex against the monitor's root table, the five *ToFixedPointCRT functions residue by residue on boundary values); " +
+			"CKKS scales 1/2/8, DecodePublic precisions 1, -2, 0.5, 30, 52, 60, caller-allocated outputs, ringqp.Poly targets with every LevelP including -1, encoder precisions 53/54/65, decoding through GetPrecisionStats; " +
+			"receivers built over a larger polynomial or obtained by CopyNew, encoders copied from a used copy; metadata unchanged by Encode/Decode; coefficient-domain []*big.Float inputs whose first element is nil or of lower precision; " +
+			"refusals (too many values, LogDimensions outside [0,max], unsupported types) answered by an error without a panic and without touching the receiver. Every such combination is a distinct non-trivial key.",
 		Cases: cases,
 		Assumptions: []string{
 			"model arithmetic (math/big integers and floats, bits.Mul64/Div64) is correct",
 			"ring.NTT/INTT/MForm/IMForm used to bring a polynomial to the coefficient domain are correct (judged by C01)",
 			"CKKS bound: rounding error <= 1/2 unit per real coefficient (<= 0.7072*slots/scale per slot, slots/scale in the conjugate-invariant ring; exactly 1/2 unit in the coefficient domain) + 2^-(p-4)*(2*logSlots+4)*sqrt(slots)*max|v| for working precision p (53 or the encoder precision); inputs satisfy max|v|*scale <= 0.35*Q_level",
 			"BGV scales are taken in [1, t-1]; output slices are never longer than the slot count",
+			"fixed-point conversion model: the integer written is within 1/2 + 2^-51*|value*scale| of value*scale on the float64 entry points (one rounding of the product, one of the +0.5), within 1/2 + 2^-(p-3)*|value*scale| on the big.Float ones (p = min(128, precision of the values)); compared residue by residue, so values above Q are judged too",
+			"root tables: |GetRootsComplex128(M)[j] - exp(2 pi i j/M)| <= 2^-48 (measured 2^-51.8), |GetRootsBigComplex(M, p)[j] - ...| <= 2^-(p-12) (measured 2^-(p-3.4)); deterministic, independent of the seed",
+			"RingQ2T is called on centred polynomials with |m_j| <= Q/2 - Q/2^17 - 2 (the floating-point overflow count of ModUpExact needs a margin from +-Q/2), positions off the gap grid hold reduced garbage",
+			"a []*big.Float element is judged at its own precision (a correct conversion works at least at the precision of each element)",
 		},
 	})
 }
